@@ -119,7 +119,7 @@ def cases(tier):
         # adjacent units get every sign combination (h/m, m/s, s/us)
         sign_patterns = [(a, b, a, b) for a in (0, 1) for b in (0, 1)]
     else:
-        days, win, nts = 11574, (1801, 2000), (1, 2)     # 11574 days = 10^9 s
+        days, win, nts = 4000, (1998, 2000), (1, 2)
         sign_patterns = [(a, b, c, d) for a in (0, 1) for b in (0, 1) for c in (0, 1) for d in (0, 1)]
     for kind in ("zone", "utc", "fixed", "naive"):
         for nt in (nts if kind == "zone" else (1,)):
